@@ -312,9 +312,8 @@ def replay(config, schedule, kind=None):
         def main_body():
             ctl.register('main')
             try:
-                for _ in range(config['starts']):
-                    lst.start()
-                    lst.stop()
+                for call in (config.get('script') or ['start', 'stop'] * config['starts']):
+                    getattr(lst, call)()
             except BaseException as e:      # noqa
                 result['main_exc'] = e
             finally:
@@ -358,7 +357,7 @@ def replay(config, schedule, kind=None):
         if not result['main_done']:
             problems.append('start()/stop() did not return within 10 s (threads alive: %r)' % left)
         e = result['main_exc']
-        allowed = (OSError, pywbem.Error) if config.get('start_may_fail') else ()
+        allowed = (OSError, pywbem.ListenerError) if config.get('start_may_fail') else ()
         if e is not None and not isinstance(e, allowed):
             problems.append('start()/stop() raised %s: %s' % (type(e).__name__, e))
         per = {}
